@@ -158,7 +158,7 @@ def _pid_handled(fi):
     return out
 
 
-@rule("C04.R2", "C04", "TABLE", "persistent-id tags and lengths are handled by the matching unpickler", min_instances=9)
+@rule("C04.R2", "C04", "TABLE", "persistent-id tags and lengths are handled by the matching unpickler", min_instances=9, also=("C19",))
 def r2(ctx, R):
     """(IOSpecPickler, IOSpecUnpickler) and (ModelPickler, ModelUnpickler): every tag returned
     by persistent_id is tested in persistent_load and the tuple length is among the lengths the
@@ -191,6 +191,36 @@ def r2(ctx, R):
     R.inst("_reduce_serialize_3: own model's name replaced by '' and resolved by _get_object_from_idtuple_reduce")
     if "_get_object_from_idtuple_reduce" not in " ".join(norm(x.value) for x in q.returns(rs)):
         R.bad(rs, rs.node, "id tuples are not resolved on load", stmt="return")
+    # siblings: both places that blank the own model's name decide "own model" by comparing the model being
+    # written (an interface) with the model *interface* of the object - an Impl on one side is never identical
+    mp = ctx.func("custom_pickle:ModelPickler.persistent_id")
+    WRITTEN = ("self.writer.model", "self._impl.system.serializing.model")
+    for f_, what in ((rs, "an object reference"), (mp, "a node value")):
+        R.inst("%s: own-model test compares the written model with the object's model interface" % f_.short)
+        okc = False
+        for x in walk_local(f_.node):
+            if isinstance(x, ast.Compare) and len(x.ops) == 1 and isinstance(x.ops[0], (ast.Is, ast.Eq)):
+                sides = [q.anorm(f_, x.left), q.anorm(f_, x.comparators[0])]
+                w_ = [s_ for s_ in sides if s_ in WRITTEN]
+                o_ = [s_ for s_ in sides if s_ not in WRITTEN]
+                if len(w_) == 1 and len(o_) == 1 and o_[0].endswith(".model"):
+                    recv = o_[0][: -len(".model")]
+                    last = recv.split(".")[-1]
+                    impl_level = last.startswith("_impl") or last in ("impl",) or recv.endswith("]") and "_impl[" in recv.split(".")[-1]
+                    if impl_level:
+                        R.bad(f_, x, "the written model (an interface) is compared with a ModelImpl: never identical, so %s of "
+                                     "the written model keeps the model's name and is resolved in whatever model has that "
+                                     "name when the files are read under another name" % what)
+                    else:
+                        # and the blanked tuple is built under the true outcome
+                        for n_ in walk_local(f_.node):
+                            if isinstance(n_, ast.Assign) and norm(n_.targets[0]) == "idtuple":
+                                for v, g in q.arms(f_, n_.value):
+                                    if norm(v).startswith("('',) + ") and ((norm(x), "T") in g or (norm(x), "T") in q.guards_of(f_, n_)):
+                                        okc = True
+        if not okc:
+            R.bad(f_, f_.node, "the own model's name is not replaced by '' for %s of the written model" % what,
+                  stmt="own-model test in %s" % f_.short)
     gr = ctx.func("System._get_object_from_idtuple_reduce")
     if not any("(self.serializing.model.name,) + idtuple[1:]" == q.anorm(gr, v) for v in assigned_value(gr, "idtuple")):
         R.bad(gr, gr.node, "relative id tuple is not resolved against the model being read", stmt="model =")
